@@ -14,7 +14,7 @@ def split_body(b):
 
 
 def blank(ev, case):
-    return dict(ev=ev, case=case, who=0, nr="", d1=0, n1="", d2=0, n2="", flag="", ret=0, rid=0, kind="", body=[], dents=[], inodes=[], op="", inj=False, expectall=False)
+    return dict(ev=ev, case=case, who=0, nr="", d1=0, n1="", d2=0, n2="", flag="", ret=0, rid=0, kind="", body=[], dents=[], inodes=[], op="", inj=False, expectall=False, denied=[], pinned=[])
 
 
 def snap_event(ev, case, snap):
@@ -497,6 +497,33 @@ def project_mkdir2(res, case_spec):
     return out
 
 
+def may_not_delete(snap, euids):
+    """(directories in which the caller may not remove entries, entries pinned by a sticky directory) for a caller with
+    effective uid `euid`, effective gid 0 (the harness only switches the uid) -- may_delete() of the kernel"""
+    euids = {e for e in euids if e is not None}
+    if not euids or euids == {0}:
+        return [], []
+    if len(euids) != 1:
+        return [], []
+    euid = euids.pop()
+    ino = {i["id"]: i for i in snap["inodes"]}
+    denied, pinned = [], []
+    for i in snap["inodes"]:
+        if i.get("k") != "dir":
+            continue
+        mode, uid = i.get("mode", 0o755), i.get("uid", 0)
+        gid = uid                               # the tree builder chowns to uid:uid
+        w = (mode & 0o200) if uid == euid else ((mode & 0o020) if gid == 0 else (mode & 0o002))
+        x = (mode & 0o100) if uid == euid else ((mode & 0o010) if gid == 0 else (mode & 0o001))
+        if not (w and x):
+            denied.append(i["id"])
+        elif (mode & 0o1000) and uid != euid:
+            for d in snap["dents"]:
+                if d["p"] == i["id"] and ino.get(d["c"], {}).get("uid", 0) != euid:
+                    pinned.append(d["c"])
+    return sorted(denied), sorted(set(pinned))
+
+
 def project_remove2(res, case_spec):
     """relevant syscalls of real remove_all calls (any backend; the in-root resolution of the parent is skipped) -> TraceRemove2 events"""
     cid = str(res.get("id"))
@@ -508,6 +535,7 @@ def project_remove2(res, case_spec):
     if any(len(v) != 1 for v in by_proc.values()) or sorted(by_proc) != list(range(procs)):
         return None
     init = snap_event("init", cid, res["init"])
+    init["denied"], init["pinned"] = may_not_delete(res["init"], {c.get("euid") for c in calls})
     frames, started, fresh = {}, set(), set()
     out = [init]
     outs = res.get("out") or []
